@@ -6,7 +6,7 @@ use core::{
 use futures_core::{FusedFuture, Stream};
 use pin_project_lite::pin_project;
 
-use crate::FuturesUnorderedBounded;
+use crate::FuturesUnordered;
 
 pin_project! {
     /// Future for the [`for_each_concurrent`](super::StreamExt::for_each_concurrent)
@@ -16,7 +16,9 @@ pin_project! {
         #[pin]
         stream: Option<St>,
         f: F,
-        futures: FuturesUnorderedBounded<Fut>,
+        // 0 means "no limit"
+        limit: usize,
+        futures: FuturesUnordered<Fut>,
     }
 }
 
@@ -30,7 +32,10 @@ where
         Self {
             stream: Some(stream),
             f,
-            futures: FuturesUnorderedBounded::new(limit),
+            limit,
+            // with a limit the single group allocated here is never outgrown;
+            // without one the set grows on demand
+            futures: FuturesUnordered::with_capacity(limit),
         }
     }
 }
@@ -63,7 +68,7 @@ where
             let unordered = &mut *this.futures;
 
             // if there's capacity for more futures, try and poll the stream
-            if unordered.tasks.len() < unordered.tasks.capacity() {
+            if *this.limit == 0 || unordered.len() < *this.limit {
                 if let Some(s) = this.stream.as_mut().as_pin_mut() {
                     match s.poll_next(cx) {
                         Poll::Ready(Some(elem)) => {
